@@ -23,6 +23,15 @@ pub fn session_variants(r: &mut Rng, events: &mut Vec<Event>, rerun_den: u64, re
     for i in 0..n {
         let ev = events[i].clone();
         if let Op::SessionNew { lang } | Op::SessionLang { lang } = &ev.op { lang_of.insert(ev.actor, lang.clone()); }
+        if let Op::SessionNew { .. } = &ev.op {
+            // a brand-new session is evaluated before any text was set (the call has nothing to evaluate;
+            // whatever it leaves in the session meets the first real text, possibly much later)
+            if rerun_den > 0 && r.chance(1, 8) {
+                out.push(ev.clone());
+                out.push(Event { actor: ev.actor, op: Op::SessionRerun, clock: ev.clock.clone() });
+                continue;
+            }
+        }
         if let (Op::SessionText { .. }, Some(lang)) = (&ev.op, lang_of.get(&ev.actor)) {
             if ev.clock.is_frozen() && r.chance(1, 12) {
                 let other = if lang == "en" { "tr" } else { "en" };
